@@ -217,6 +217,7 @@ class TypeEngine:
         self.node_types: Dict[Tuple[str, int], FrozenSet] = {}
         self.ctx_node_types: Dict[Tuple[str, tuple, int], FrozenSet] = {}
         self.call_targets: Dict[Tuple[str, int], Set[str]] = {}
+        self.ctx_edges: Dict[Tuple[str, tuple], Set[Tuple[str, tuple]]] = {}  # context-sensitive call graph
         self.in_sites: Dict[Tuple[str, int], Set[Tuple]] = {}
         self.op_targets: Dict[Tuple[str, int], Set[str]] = {}  # operator / protocol dispatch
         self.anomalies: List[Tuple[str, int, str]] = []  # (fn qual, lineno, text)
@@ -288,6 +289,8 @@ class TypeEngine:
         if fi.short in STUBS and fi.short == "unify_types":
             self.stub_uses.add(fi.short)
         self.contexts.setdefault(fi.qual, set()).add(bound)
+        if self._stack:
+            self.ctx_edges.setdefault(self._stack[-1], set()).add(key)
         sm = self.memo.get(key)
         if sm is None:
             sm = self.memo[key] = Summary()
@@ -437,6 +440,21 @@ class TypeEngine:
                     seen.add(y)
                     todo.append(y)
         return seen
+
+    def reached_from(self, roots) -> Set[str]:
+        """qualified names of the functions reached from the contexts [(fi, args)] through the context-sensitive call graph"""
+        todo = [(fi.qual, self._bind(fi, args, {})) for fi, args in roots]
+        for k in todo:
+            if k not in self.memo:
+                raise AnalysisError("context %s%s was never analysed" % (k[0], [show(v) for _, v in k[1]]))
+        seen = set(todo)
+        while todo:
+            k = todo.pop()
+            for k2 in self.ctx_edges.get(k, ()):
+                if k2 not in seen:
+                    seen.add(k2)
+                    todo.append(k2)
+        return {k[0] for k in seen}
 
     def targets_in(self, fi: FunctionInfo, expr: ast.AST) -> Set[str]:
         out: Set[str] = set()
